@@ -9,14 +9,14 @@ for f in sys.argv[1:]:
 sys.path.insert(0, '/verif/mutants'); import defs
 notes = {m[0]: m[5] for m in defs.M}
 seed = ["| change | property | what it needs to manifest | quick check result | first signature |", "|---|---|---|---|---|"]
-LIMITS = {'C17b-r8'}
+LIMITS = {'C17b-r8', 'C05b-r9', 'C06a-r9'}
 for d in sorted(os.listdir('/verif/seeded')):
     if not os.path.isdir(f'/verif/seeded/{d}'): continue
     meta = json.load(open(f'/verif/seeded/{d}/meta.json'))
     key = f'seeded/{d}/patch.diff'
     pid, rc, sig = rows.get(key, (d[:3], '?', ''))
     res = {'exit=1': 'VIOLATION', 'exit=0': 'no alarm (neutralised by a repair, see below)', '': 'patch no longer applies (neutralised by a repair)'}.get(rc, rc)
-    if d in LIMITS and rc == 'exit=0': res = 'not reported (stated limit of the harness, see round 8 below)'
+    if d in LIMITS and rc in ('exit=0', 'exit=2'): res = 'not reported (stated limit of the harness, see the round notes below)'
     needs = meta.get('needs', '').replace('|', '/').replace('\n', ' ')
     if len(needs) > 230: needs = needs[:227] + '…'
     seed.append(f"| `seeded/{d}` | {pid} | {needs} | {res} | `{sig}` |")
